@@ -68,11 +68,14 @@ func (c13Sim) Gen(prop, tier string, r *rand.Rand) interface{} {
 			a.Kind = "writer"
 		case x < 7:
 			a.Kind = "reader"
+		case x < 8 && chance(r, 0.7):
+			a.Kind = "creator"
+			a.Sessions = 1
 		case x < 8:
 			a.Kind = "abandoner"
 		default:
 			a.Kind = "badopen"
-			a.Hostile = pick(r, "short", "badheader", "dir", "rocreate", "short")
+			a.Hostile = pick(r, "short", "badheader", "dir", "rocreate", "shortbody", "shortbody")
 			a.Sessions = int(between(r, 1, 2))
 			if prop == "C05" {
 				a.Kind, a.Hostile = "reader", ""
@@ -299,6 +302,47 @@ func (c13Sim) Run(e *Env, ci interface{}) {
 					mu.Lock()
 					hist = append(hist, c13Op{client: ai, kind: "r", seen: g, call: call, ret: ret})
 					mu.Unlock()
+				case "creator":
+					// a session that starts with Create: the new file is held from
+					// Create until Close like any other handle
+					np := filepath.Join(e.Dir, fmt.Sprintf("created-%s.wsp", name))
+					follower := fmt.Sprintf("%s.f", name)
+					var cmu sync.Mutex
+					cheld := false
+					s.Go(follower, func() {
+						for try := 0; try < 6; try++ {
+							db2, oerr := wt.Open(np)
+							if oerr != nil {
+								// not there yet, or no header yet (Create has not synced)
+								continue
+							}
+							cmu.Lock()
+							h := cheld
+							cmu.Unlock()
+							db2.Close()
+							if h {
+								viol("C13.exclusive", "%s: Open of a file returned while the session that created it (Create ... Close) still holds its handle", follower)
+								return
+							}
+						}
+					})
+					ndb, cerr := c.Layout.create(np)
+					if cerr != nil {
+						viol("C13.session", "%s: Create failed: %v", name, cerr)
+						return
+					}
+					cmu.Lock()
+					cheld = true
+					cmu.Unlock()
+					if err := ndb.UpdatePointsForArchive([]wt.Point{{Time: wt.Timestamp(now), Value: 1}}, 0, wt.Timestamp(now)); err != nil {
+						viol("C13.session", "%s: update failed: %v", name, err)
+					}
+					ndb.Sync()
+					cmu.Lock()
+					cheld = false
+					cmu.Unlock()
+					ndb.Close()
+					e.Probe("create-session-with-concurrent-opener")
 				case "badopen":
 					c13BadOpen(e, s, c, a, fmt.Sprintf("%s-%d", name, k), viol)
 					if e.Failed() {
@@ -404,6 +448,17 @@ func c13BadOpen(e *Env, s *Sched, c *C13Case, a C13Actor, tag string, viol func(
 		os.WriteFile(p, b, 0o644)
 		_, err = wt.Open(p)
 		what = "Open of a file with an invalid header"
+	case "shortbody":
+		// valid header, body cut short: rejected after the header was read
+		q := p + ".full"
+		if db, cerr := c.Layout.create(q); cerr == nil {
+			db.Sync()
+			db.Close()
+			b := readFile(q)
+			os.WriteFile(p, b[:len(b)-7], 0o644)
+		}
+		_, err = wt.Open(p)
+		what = "Open of a file shorter than its header requires"
 	case "dir":
 		os.Mkdir(p, 0o755)
 		_, err = wt.Open(p, wt.WithOpenFileFlag(os.O_RDONLY))
@@ -435,7 +490,7 @@ func c13BadOpen(e *Env, s *Sched, c *C13Case, a C13Actor, tag string, viol func(
 	}
 	e.Probe("failed-open-probed/" + a.Hostile)
 	// a later Open of the same path must not be blocked by the failed one
-	if a.Hostile == "short" || a.Hostile == "badheader" {
+	if a.Hostile == "short" || a.Hostile == "badheader" || a.Hostile == "shortbody" {
 		q := p + ".valid"
 		db, cerr := c.Layout.create(q)
 		if cerr == nil {
